@@ -5,6 +5,7 @@ import (
 	"flag"
 	"fmt"
 	"os"
+	"sort"
 	"strconv"
 	"strings"
 
@@ -45,6 +46,9 @@ func cmdRun(args []string) int {
 	maporder := fs.Int("maporder", 0, "symbolic map order up to N keys")
 	maxpaths := fs.Int("maxpaths", 200000, "max paths per harness")
 	jsonOut := fs.String("json", "", "write report json")
+	sites := fs.Bool("sites", false, "print the functions where symbolic decisions were taken")
+	var params multi
+	fs.Var(&params, "param", "name=value (repeatable)")
 	fs.Parse(args)
 	spec := gosx.LoadSpec{Dir: *dir, Patterns: pkgs, Overlays: map[string]string{}}
 	for _, o := range overlays {
@@ -62,6 +66,13 @@ func cmdRun(args []string) int {
 	cfg.Verbose = *verbose
 	cfg.MapOrderMax = *maporder
 	cfg.MaxPaths = *maxpaths
+	cfg.SiteStats = *sites
+	cfg.Params = map[string]int{}
+	for _, p := range params {
+		kv := strings.SplitN(p, "=", 2)
+		n, _ := strconv.Atoi(kv[1])
+		cfg.Params[kv[0]] = n
+	}
 	ex := gosx.NewExplorer(prog, cfg)
 	rep, err := ex.Run(strings.Split(*harness, ","))
 	if err != nil {
@@ -94,6 +105,23 @@ func cmdRun(args []string) int {
 	}
 	fmt.Printf("solver: sat=%d unsat=%d unknown=%d errors=%d fallbacks=%d cross=%d time=%v; wall=%v\n",
 		rep.Solver.Sat, rep.Solver.Unsat, rep.Solver.Unknown, rep.Solver.Errors, rep.Solver.Fallbacks, rep.Solver.CrossChecks, rep.Solver.Time, rep.Wall)
+	if *sites {
+		type kv struct {
+			k string
+			v int
+		}
+		var l []kv
+		for k, v := range rep.SiteCount {
+			l = append(l, kv{k, v})
+		}
+		sort.Slice(l, func(i, j int) bool { return l[i].v > l[j].v })
+		for i, e := range l {
+			if i >= 25 {
+				break
+			}
+			fmt.Printf("   site %8d %s\n", e.v, e.k)
+		}
+	}
 	if *jsonOut != "" {
 		b, _ := json.MarshalIndent(rep, "", " ")
 		os.WriteFile(*jsonOut, b, 0o644)
